@@ -15,7 +15,7 @@ import sys
 from pathlib import Path
 from typing import IO, TYPE_CHECKING, List, Optional, Tuple
 
-from libcst import Module, parse_module
+from libcst import ClassDef, Module, Name, parse_module
 from libcst.codemod import CodemodContext
 from libcst.codemod.visitors import (
     ApplyTypeAnnotationsVisitor,
@@ -159,7 +159,20 @@ def get_newly_imported_items(
     source_module.visit(gatherer)
     source_imports = list(gatherer.symbol_mapping.values())
 
-    return list(set(stub_imports).difference(set(source_imports)))
+    # Classes generated into the stub (TypedDict class stubs) are copied into the
+    # source at module level: the names of their base classes are needed when the
+    # module is imported, so those imports must not be confined to type checking.
+    runtime_names = set()
+    for statement in stub_module.body:
+        if isinstance(statement, ClassDef):
+            for base in statement.bases:
+                if isinstance(base.value, Name):
+                    runtime_names.add(base.value.value)
+    return [
+        item
+        for item in set(stub_imports).difference(set(source_imports))
+        if (item.alias or item.obj_name or item.module_name) not in runtime_names
+    ]
 
 
 def apply_stub_using_libcst(
